@@ -142,9 +142,9 @@ macro_rules! sinc_depth {
             #[kani::stub(dasp_interpolate::sinc::ops::f64::sin, super::sin_lin)]
             #[kani::stub(dasp_interpolate::sinc::ops::f64::cos, super::cos_lin)]
             pub fn taps_and_weights() {
-              // depth 3 (12 taps per output): only the fully primed, wrapped state - more did not finish in 900 s
+              // depth 2: two states, depth 3 (12 taps per output): only the fully primed, wrapped state - more did not finish in 900 s
               const TAP_PUSHES: [usize; 3] = [2 * D + 1, D, 0];
-              const N_STATES: usize = if D < 3 { 3 } else { 1 };
+              const N_STATES: usize = if D == 1 { 3 } else if D == 2 { 2 } else { 1 };
               let mut pi = 0;
               while pi < N_STATES {
                 let (s, idx, logical) = pushed_state(TAP_PUSHES[pi]);
